@@ -145,6 +145,14 @@ func exactKey(ts []*sdf.Triangle3) string {
 	return fmt.Sprintf("%x", h.Sum(nil)[:8])
 }
 
+// dependsKey names what the output wrongly depends on.
+func dependsKey(kind string) string {
+	if strings.Contains(kind, "history") || strings.HasPrefix(kind, "reuse") {
+		return "output-depends-on-earlier-renders"
+	}
+	return "output-depends-on-schedule"
+}
+
 func key3(ts []*sdf.Triangle3) string {
 	h := sha256.New()
 	for _, t := range ts {
@@ -289,6 +297,67 @@ func prepare(sc scen, j *vlib.Job) *prepared {
 		p.body = func() {
 			out = nil
 			out = append(out, key3(render.ToTriangles(s, mk())))
+		}
+	case "octree-history", "reuse-octree", "reuse-uniform", "reuse-quadtree", "reuse-squares", "reuse-dc2d":
+		// histories of different models: sphere, box, sphere.  "octree-history" uses a fresh renderer value for
+		// every render (state kept by the package between renders); "reuse-*" passes ONE renderer value to all
+		// three renders (state kept by the renderer value).  Every output must equal the output of the same model
+		// rendered alone by a fresh renderer.
+		s3a, _ := sdf.Sphere3D(1)
+		s3b, _ := sdf.Box3D(v3.Vec{X: 3, Y: 1, Z: 0.5}, 0.125)
+		s2a := circle{1}
+		s2b := sdf.Box2D(v2.Vec{X: 5, Y: 1}, 0.125)
+		three := strings.HasSuffix(sc.Kind, "octree") || sc.Kind == "octree-history" || sc.Kind == "reuse-uniform"
+		mk3 := func() render.Render3 {
+			if sc.Kind == "reuse-uniform" {
+				return render.NewMarchingCubesUniform(3)
+			}
+			return render.NewMarchingCubesOctree(5)
+		}
+		mk2 := func() render.Render2 {
+			switch sc.Kind {
+			case "reuse-quadtree":
+				return render.NewMarchingSquaresQuadtree(7)
+			case "reuse-dc2d":
+				return render.NewDualContouring2D(7)
+			}
+			return render.NewMarchingSquaresUniform(7)
+		}
+		one := func(which int, r3 render.Render3, r2 render.Render2) string {
+			if three {
+				if which == 0 {
+					return key3(render.ToTriangles(s3a, r3))
+				}
+				return key3(render.ToTriangles(s3b, r3))
+			}
+			var ls []*sdf.Line2
+			if which == 0 {
+				ls = lattice.Collect2(s2a, r2)
+			} else {
+				ls = lattice.Collect2(s2b, r2)
+			}
+			h := sha256.New()
+			for _, l := range ls {
+				fmt.Fprint(h, *l)
+			}
+			return fmt.Sprintf("%d:%x", len(ls), h.Sum(nil)[:8])
+		}
+		var alone [2]string
+		for w := 0; w < 2; w++ {
+			w := w
+			vsync.RunOnce(nil, false, func() { vsync.SetNumCPU(sc.Workers); alone[w] = one(w, mk3(), mk2()) })
+		}
+		p.indep = fmt.Sprint([]string{alone[0], alone[1], alone[0]})
+		p.body = func() {
+			out = nil
+			vsync.SetNumCPU(sc.Workers)
+			r3, r2 := mk3(), mk2()
+			for _, w := range []int{0, 1, 0} {
+				if sc.Kind == "octree-history" {
+					r3, r2 = mk3(), mk2()
+				}
+				out = append(out, one(w, r3, r2))
+			}
 		}
 	case "dxf-two", "dxf-history", "3mf-two":
 		// file sinks that go to the real file system (their libraries take a path): two different renders
@@ -465,6 +534,8 @@ func main() {
 		scen{Kind: "two", Lattice: T, Workers: 1, Every: 0, Bound: 1},
 		scen{Kind: "history", Lattice: L25, Workers: 2, Every: 0, Bound: 1},
 		scen{Kind: "octree", Workers: 1, Bound: -1}, scen{Kind: "svg", Workers: 1, Bound: -1},
+		scen{Kind: "octree-history", Workers: 1, Bound: -1}, scen{Kind: "reuse-octree", Workers: 1, Bound: -1}, scen{Kind: "reuse-uniform", Workers: 2, Bound: 1},
+		scen{Kind: "reuse-quadtree", Workers: 1, Bound: -1}, scen{Kind: "reuse-squares", Workers: 1, Bound: -1}, scen{Kind: "reuse-dc2d", Workers: 1, Bound: -1},
 		scen{Kind: "dxf-two", Workers: 1, Bound: -1}, scen{Kind: "dxf-history", Workers: 1, Bound: -1}, scen{Kind: "3mf-two", Workers: 1, Bound: -1})
 	if c.Thorough() {
 		scens = append(scens, scen{Kind: "triangles", Lattice: "1x14x13 n=14 (layer 225: 3 batches)", Workers: 3, Every: 100, Bound: 2},
@@ -518,10 +589,10 @@ func main() {
 					policyViolation = true
 				} else if o := p.obs(); o != p.ref {
 					policyViolation = true
-					j.Violation(sc.Kind+"|output-depends-on-schedule", fmt.Sprintf("%s %s W=%d: scheduling policy %s produced %s, reference %s", sc.Kind, sc.Lattice, sc.Workers, r.Policy, o, p.ref), r)
+					j.Violation(sc.Kind+"|"+dependsKey(sc.Kind), fmt.Sprintf("%s %s W=%d: scheduling policy %s produced %s, reference %s", sc.Kind, sc.Lattice, sc.Workers, r.Policy, o, p.ref), r)
 				} else if e := p.exact(); e != p.refExact {
 					policyViolation = true
-					j.Violation(sc.Kind+"|output-depends-on-schedule", fmt.Sprintf("%s %s W=%d: scheduling policy %s produced vertex bits %s, the default schedule %s", sc.Kind, sc.Lattice, sc.Workers, r.Policy, e, p.refExact), r)
+					j.Violation(sc.Kind+"|"+dependsKey(sc.Kind), fmt.Sprintf("%s %s W=%d: scheduling policy %s produced vertex bits %s, the default schedule %s", sc.Kind, sc.Lattice, sc.Workers, r.Policy, e, p.refExact), r)
 				}
 			}
 		}
@@ -548,9 +619,9 @@ func main() {
 				}
 				j.Violation(sc.Kind+"|"+kind, fmt.Sprintf("%s %s W=%d: %v", sc.Kind, sc.Lattice, sc.Workers, x.Faults), rep())
 			} else if o != p.ref {
-				j.Violation(sc.Kind+"|output-depends-on-schedule", fmt.Sprintf("%s %s W=%d: schedule %v produced %s, sequential reference %s", sc.Kind, sc.Lattice, sc.Workers, x.Choices, o, p.ref), rep())
+				j.Violation(sc.Kind+"|"+dependsKey(sc.Kind), fmt.Sprintf("%s %s W=%d: schedule %v produced %s, sequential reference %s", sc.Kind, sc.Lattice, sc.Workers, x.Choices, o, p.ref), rep())
 			} else if e := p.exact(); e != p.refExact {
-				j.Violation(sc.Kind+"|output-depends-on-schedule", fmt.Sprintf("%s %s W=%d: schedule %v produced vertex bits %s, the default schedule %s", sc.Kind, sc.Lattice, sc.Workers, x.Choices, e, p.refExact), rep())
+				j.Violation(sc.Kind+"|"+dependsKey(sc.Kind), fmt.Sprintf("%s %s W=%d: schedule %v produced vertex bits %s, the default schedule %s", sc.Kind, sc.Lattice, sc.Workers, x.Choices, e, p.refExact), rep())
 			}
 			return true
 		})
